@@ -261,8 +261,57 @@ def r19_5(ctx):
     ctx.ob('R19.5', 'forkserver.main:served-child-always-exits', ok, mn, None, 'os._exit in a finally after _serve_one')
 
 
+def r19_6(ctx):
+    ctx.rule('R19.6', 'spawn: the sentinel is the read end of a pipe whose write end is inherited by the child, and '
+                      'every child end the parent closes afterwards was handed to the child first', floor=3)
+    m = ctx.model
+    fi = m.func('popen_spawn_posix:Popen._launch')
+    cfg = fi.cfg
+    pipes = [(dn, [ast.unparse(e) for e in dn.ast.targets[0].elts]) for dn in cfg.where(
+        lambda n: n.kind == 'stmt' and isinstance(n.ast, ast.Assign) and isinstance(n.ast.value, ast.Call)
+        and fi.callee(n.ast.value) == 'os.pipe' and isinstance(n.ast.targets[0], ast.Tuple)
+        and len(n.ast.targets[0].elts) == 2)]
+    q.need(len(pipes) >= 2, 'popen_spawn_posix._launch: the two os.pipe() pairs not found')
+    spawns = [(n, c) for (n, c) in q.calls(fi, lambda t: t.endswith('spawnv_passfds'))]
+    q.need(spawns, 'popen_spawn_posix._launch: spawnv_passfds not found')
+    sn, sc = spawns[0]
+    ok = len(sc.args) >= 3 and ast.unparse(sc.args[2]) == 'self._fds'
+    ctx.ob('R19.6', '_launch:child-inherits-self._fds', ok, fi, sc, 'spawnv_passfds(exe, cmd, self._fds)')
+    # fds handed over on every path to the spawn
+    handed = set()
+    for (n, c) in q.calls(fi, ('self._fds.extend', 'self._fds.append')):
+        if not cfg.dominated_by(sn, [n], completed=True)[0]:
+            continue
+        a = c.args[0] if c.args else None
+        if fi.callee(c).endswith('extend') and isinstance(a, (ast.List, ast.Tuple)):
+            handed |= {ast.unparse(e) for e in a.elts}
+        elif fi.callee(c).endswith('append') and a is not None:
+            handed.add(ast.unparse(a))
+    sent = [v for (dn, t, v) in q.assigns(fi, 'self.sentinel') if v is not None]
+    q.need(sent, 'popen_spawn_posix._launch: self.sentinel is never set')
+    s = ast.unparse(sent[0])
+    pair = [p for (dn, p) in pipes if p[0] == s]
+    ok = len(sent) == 1 and bool(pair) and pair[0][1] in handed
+    ctx.ob('R19.6', '_launch:sentinel-pipe-write-end-lives-in-the-child', ok, fi, sn,
+           'self.sentinel = %s; its write end %s is in self._fds' % (s, pair[0][1] if pair else '?') if ok else
+           'the write end of the sentinel pipe is not inherited by the child: the parent closes its copy right after '
+           'the spawn, the sentinel reads EOF at once and wait()/join(timeout)/is_alive() take a running child for '
+           'finished')
+    # every pipe end the parent closes in the clean-up and does not use itself is a child end
+    used_by_parent = {s}
+    for w in [x for x in walk_own(fi.node) if isinstance(x, ast.Call) and fi.callee(x) in ('io.open', 'open', 'os.fdopen')]:
+        if w.args:
+            used_by_parent.add(ast.unparse(w.args[0]))
+    ends = {e for (dn, p) in pipes for e in p} - used_by_parent
+    for e in sorted(ends):
+        ctx.ob('R19.6', '_launch:child-end-%s-handed-over' % e, e in handed, fi, sn,
+               '%s is in self._fds before the spawn' % e if e in handed else
+               '%s is closed by the parent but never given to the child' % e)
+
+
 def run(ctx):
     r19_5(ctx)
+    r19_6(ctx)
     r19_1(ctx)
     r19_2(ctx)
     r19_3(ctx)
@@ -272,6 +321,9 @@ def run(ctx):
 _PF = 'billiard/popen_fork.py'
 _PR = 'billiard/process.py'
 MUTANTS = [
+    ('spawn-sentinel-write-end-not-inherited', 'billiard/popen_spawn_posix.py', "            self._fds.extend([child_r, child_w])", "            self._fds.append(child_r)", 'R19.6'),
+    ('spawn-sentinel-is-the-data-pipe', 'billiard/popen_spawn_posix.py', "            self.sentinel = parent_r", "            self.sentinel = child_r", 'R19.6'),
+    ('spawn-fds-not-passed', 'billiard/popen_spawn_posix.py', "spawn.get_executable(), cmd, self._fds,", "spawn.get_executable(), cmd, [child_r],", 'R19.6'),
     ('sigstatus-positive', _PF, "self.returncode = -os.WTERMSIG(sts)", "self.returncode = os.WTERMSIG(sts)", 'R19.2'),
     ('exitstatus-raw', _PF, "self.returncode = os.WEXITSTATUS(sts)", "self.returncode = sts", 'R19.2'),
     ('branches-swapped', _PF, "if os.WIFSIGNALED(sts):", "if not os.WIFSIGNALED(sts):", 'R19.2'),
@@ -294,6 +346,8 @@ MUTANTS = [
     ('join-drops-timeout', _PR, "res = self._popen.wait(timeout)", "res = self._popen.wait()", 'R19.4'),
 ]
 TWINS = [
+    ('spawn-fds-appended-one-by-one', 'billiard/popen_spawn_posix.py', "            self._fds.extend([child_r, child_w])", "            self._fds.append(child_r)\n            self._fds.append(child_w)"),
+    ('spawn-fds-extended-with-a-tuple', 'billiard/popen_spawn_posix.py', "            self._fds.extend([child_r, child_w])", "            self._fds.extend((child_w, child_r))"),
     ('poll-own-pid-swapped', _PF, "            if pid == self.pid:\n                if os.WIFSIGNALED(sts):", "            if self.pid == pid:\n                if os.WIFSIGNALED(sts):"),
     ('wait-positive-form', _PF, "                if not wait([self.sentinel], timeout):\n                    return None\n",
      "                ready = wait([self.sentinel], timeout)\n                if not ready:\n                    return None\n"),
